@@ -49,6 +49,33 @@ def resize_area(a, dsize):
     return _resample_axis_area(r, 1, cols)
 
 
+def _resample_axis_linear(a, axis, n_out):
+    """cv2.INTER_LINEAR along one axis: half-pixel centres, border replicated (exact rational weights)"""
+    n_in = a.shape[axis]
+    if n_out == n_in:
+        return a
+    a = np.moveaxis(a, axis, 0)
+    out = np.empty((n_out,) + a.shape[1:], dtype=object)
+    scale = Fraction(n_in, n_out)
+    for i in range(n_out):
+        x = (Fraction(2 * i + 1, 2)) * scale - Fraction(1, 2)
+        x0 = x.numerator // x.denominator
+        t = x - x0
+        lo = min(max(x0, 0), n_in - 1)
+        hi = min(max(x0 + 1, 0), n_in - 1)
+        if x0 < 0:
+            t = Fraction(0)
+            lo = hi = 0
+        out[i] = a[lo] * const_real(1 - t) + a[hi] * const_real(t)
+    return np.moveaxis(out, 0, axis)
+
+
+def resize_linear(a, dsize):
+    cols, rows = int(dsize[0]), int(dsize[1])
+    r = _resample_axis_linear(np.asarray(a, dtype=object), 0, rows)
+    return _resample_axis_linear(r, 1, cols)
+
+
 def make_cv2(real):
     """cv2 proxy: resize on symbolic arrays follows the INTER_AREA contract; everything else is the real cv2"""
 
@@ -72,6 +99,79 @@ def make_cv2(real):
                 return src.copy()
             if interpolation == real.INTER_AREA:
                 return resize_area(src, dsize)
+            if interpolation in (None, real.INTER_LINEAR):
+                return resize_linear(src, dsize)
             raise Unsupported(f"cv2.resize with interpolation {interpolation} on symbolic data")
 
     return CV2()
+
+
+# ---------------------------------------------------------------- linear-solver back-ends
+
+
+def install_linear_solver_stubs(ws_module, linalg_module, log=None):
+    """splu / pyamg / scipy cg on symbolic matrices = EXACT solve of the matrix they were given
+    (contract).  `log` (a list) records (backend, event) for reuse claims.
+
+      * splu(A): sorts A's index arrays in place like SuperLU's wrapper does, factorises a COPY
+        of the values at set-up time; .solve(b) solves with those values.
+      * pyamg.smoothed_aggregation_solver(A): copies A at set-up; .solve(b, ...) exact.
+      * scipy.sparse.linalg.cg(A, b, ...): solves with A's CURRENT values (darsia's CG wrapper
+        keeps a reference to the matrix, not a copy).
+    """
+    from symx import api as S
+    from symx import sparse
+    from symx.core import ENGINE
+
+    log = log if log is not None else []
+
+    class LU:
+        def __init__(self, A):
+            A.sort_indices()
+            self.M = A.copy()
+            log.append(("direct", "setup"))
+
+        def solve(self, b, **k):
+            log.append(("direct", "solve"))
+            return S.solve_contract(self.M, b, "lu")
+
+    ENGINE.splu_hook = LU
+
+    real_pyamg = ws_module.pyamg
+
+    class AMG:
+        def __init__(self, A, **k):
+            self.M = A.copy()
+            log.append(("amg", "setup"))
+
+        def solve(self, b, tol=None, maxiter=None, residuals=None, **k):
+            log.append(("amg", "solve"))
+            if residuals is not None:
+                residuals.append(0.0)
+            return S.solve_contract(self.M, b, "amg")
+
+        def aspreconditioner(self, cycle="V"):
+            return ("amg-preconditioner", self)
+
+    class PyAMG:
+        def __getattr__(self, n):
+            return getattr(real_pyamg, n)
+
+        @staticmethod
+        def smoothed_aggregation_solver(A, **k):
+            if isinstance(A, sparse.SpM):
+                return AMG(A, **k)
+            return real_pyamg.smoothed_aggregation_solver(A, **k)
+
+    ws_module.pyamg = PyAMG()
+
+    real_cg = linalg_module.cg
+
+    def cg(A, b, **k):
+        if isinstance(A, sparse.SpM):
+            log.append(("cg", "solve"))
+            return S.solve_contract(A, b, "cg"), 0
+        return real_cg(A, b, **k)
+
+    linalg_module.cg = cg
+    return log
